@@ -71,7 +71,8 @@ impl Default for ModelPhantomData {
 
 pub fn get_new_sig( sig: &Signature, actor_ty: &Type) -> Signature {
     let actor_turbo_ty = super::turbofish::from_type(actor_ty);
-    super::replace(sig, &quote!{Self::},&actor_turbo_ty);
+    // `Self::Item` -> `Actor::<T>::Item`, the path separator stays
+    let sig = &super::replace(sig, &quote!{Self::},&quote!{ #actor_turbo_ty :: });
 
     let ty_self: Type   = parse_quote!{ Self };
     let mut signature = super::replace(sig, &ty_self,actor_ty);
